@@ -101,7 +101,9 @@ def Ctx.fail (c : Ctx) (kind msg : String) : Ctx := { c with st := c.st.fail kin
 def Ctx.observe (c : Ctx) (s : Sim) (obsStr : String) (evs : List Spec.Ev) : Ctx :=
   match parseObs obsStr with
   | none =>
-    let c := c.fail "PARSE" s!"bad observation '{obsStr}'"
+    let c := if obsStr.startsWith "obs-panic" || obsStr.startsWith "obs-timeout" then
+        c.fail "PROP" s!"C04+C13+SPEC observing the state (WarriorCount/GetWarrior/Queue/GetMem/GetMemState): {obsStr}"
+      else c.fail "PARSE" s!"bad observation '{obsStr}'"
     { c with st := { c.st with dead := true } }
   | some o =>
     let st := c.st
@@ -218,23 +220,25 @@ def Ctx.step (c : Ctx) (line : String) : Ctx :=
       let specOn := c.ex.specOn && startI ≥ 0
       let c := { c with st := { c.st with spec := c.st.spec.add (code.map Instr.abs) startI.toNat },
                         ex := { c.ex with specOn } }
+      if implEnded then endCase (c.fail "PROP" s!"C04+C13+SPEC AddWarrior {resp}") else
       c.observe s' obs []
   | ["A", start] =>
       let startI := intD start
       let s' := s.addWarrior { code := #[], start := startI }
       let c := { c with st := { c.st with spec := c.st.spec.add [] startI.toNat },
                         ex := { c.ex with specOn := c.ex.specOn && startI ≥ 0 } }
+      if implEnded then endCase (c.fail "PROP" s!"C04+C13+SPEC AddWarrior {resp}") else
       c.observe s' obs []
   | ["S", wi, off] =>
     let wiI := intD wi
     match s.spawn wiI (u64 off) with
     | .error p =>
       let c := if resp != "panic:" ++ showPanic p then c.fail "CORR" s!"spawn: model panic {showPanic p} impl {resp}" else c
-      endCase (c.fail "PROP" s!"C13 SpawnWarrior({wi},{off}) {resp}")
+      endCase (c.fail "PROP" s!"C04+C13+SPEC+C12 SpawnWarrior({wi},{off}) {resp}")
     | .ok (s', okb) =>
       let want := if okb then "ok" else "err"
       let c := if resp != want then c.fail "CORR" s!"spawn: model {want} impl {resp}" else c
-      if implEnded then endCase (c.fail "PROP" s!"C13 SpawnWarrior({wi},{off}) {resp}") else
+      if implEnded then endCase (c.fail "PROP" s!"C04+C13+SPEC+C12 SpawnWarrior({wi},{off}) {resp}") else
       let c := if c.ex.specOn then
           match c.st.spec.spawn wiI (natD off) with
           | some sp =>
@@ -255,10 +259,10 @@ def Ctx.step (c : Ctx) (line : String) : Ctx :=
     match s.runCycle with
     | .error p =>
       let c := if resp != "panic:" ++ showPanic p then c.fail "CORR" s!"RunCycle: model panic {showPanic p} impl {resp}" else c
-      endCase (c.fail "PROP" s!"C04 RunCycle {resp}")
+      endCase (c.fail "PROP" s!"C04+C13+SPEC+C12 RunCycle {resp}")
     | .ok (s', ret) =>
       let c := if resp != toString ret then c.fail "CORR" s!"RunCycle: model {ret} impl {resp}" else c
-      if implEnded then endCase (c.fail "PROP" s!"C04 RunCycle {resp}") else
+      if implEnded then endCase (c.fail "PROP" s!"C04+C13+SPEC+C12 RunCycle {resp}") else
       let (c, evs) := if c.ex.specOn then
           let (sp, evs, sret) := c.st.spec.cycle
           let c := if resp != toString sret then c.fail "PROP" s!"SPEC RunCycle returned {resp}, reference {sret}" else c
@@ -269,13 +273,13 @@ def Ctx.step (c : Ctx) (line : String) : Ctx :=
     match s.runLoop (s.maxCycles.toNat + 2) with
     | .error p =>
       let c := if resp != "panic:" ++ showPanic p then c.fail "CORR" s!"Run: model panic {showPanic p} impl {resp}" else c
-      endCase (c.fail "PROP" s!"C04 Run {resp}")
+      endCase (c.fail "PROP" s!"C04+C13+SPEC+C12 Run {resp}")
     | .ok (s', fin) =>
       let want := if !fin then "timeout"
         else if s'.warriors.size == 0 then "nil"
         else ",".intercalate (s'.results.map (fun b => if b then "1" else "0"))
       let c := if resp != want then c.fail "CORR" s!"Run: model {want} impl {resp}" else c
-      if implEnded then endCase (c.fail "PROP" s!"C13 Run {resp}") else
+      if implEnded then endCase (c.fail "PROP" s!"C04+C13+SPEC+C12 Run {resp}") else
       let (c, evs) := if c.ex.specOn then
           let (sp, evs) := c.st.spec.run (c.st.spec.C + 2)
           let swant := if sp.ws.isEmpty then "nil"
@@ -287,7 +291,7 @@ def Ctx.step (c : Ctx) (line : String) : Ctx :=
   | ["T"] =>
     let s' := s.reset
     let c := { c with st := { c.st with spec := c.st.spec.reset } }
-    if implEnded then endCase (c.fail "PROP" s!"C13 Reset {resp}") else
+    if implEnded then endCase (c.fail "PROP" s!"C04+C13+SPEC+C12 Reset {resp}") else
     let c := c.observe s' obs []
     -- C15: after a reset every address is empty
     if c.ex.implRec.any (fun e => e != (0, -1)) then c.fail "PROP" "C15 recorder not empty after Reset" else c
@@ -296,7 +300,7 @@ def Ctx.step (c : Ctx) (line : String) : Ctx :=
     | .error p => endCase (c.fail "PROP" s!"C13 GetMem panics in the model ({showPanic p}), impl {resp}")
     | .ok cell =>
       let c := if resp != showCell cell then c.fail "CORR" s!"GetMem({a}): model {showCell cell} impl {resp}" else c
-      if implEnded then endCase (c.fail "PROP" s!"C13 GetMem({a}) {resp}") else
+      if implEnded then endCase (c.fail "PROP" s!"C04+C13+SPEC+C12 GetMem({a}) {resp}") else
       if c.ex.specOn then
         let want := showSCell (c.st.spec.core.getD (natD a % c.st.spec.M) default)
         if resp != want then c.fail "PROP" s!"SPEC GetMem({a}) = {resp}, reference {want}" else c
@@ -317,7 +321,7 @@ def Ctx.step (c : Ctx) (line : String) : Ctx :=
           s!"a={if w.state == .alive then 1 else 0} q={",".intercalate (q.map (fun (x : UInt64) => toString x.toNat))} x={xs} len={w.data.code.size}"
         | _, _ => "panic"
       let c := if resp != want then c.fail "CORR" s!"GetWarrior({i}): model '{want}' impl '{resp}'" else c
-      if implEnded || resp.contains "panic" then endCase (c.fail "PROP" s!"C13 warrior query {i}: {resp}") else
+      if implEnded || resp.contains "panic" then endCase (c.fail "PROP" s!"C04+C13+SPEC warrior query {i}: {resp}") else
       if c.ex.specOn then
         match c.st.spec.ws[k]? with
         | none => c.fail "PROP" s!"SPEC GetWarrior({i}) exists but not in the reference"
